@@ -621,10 +621,10 @@ class Engine:
         st = p.state
         for i in range(1, b.arg_count + 1):
             ty = b.local_ty(i)
-            if ty.startswith('&mut ') and ty.endswith('BitSeq'):
+            if ty.startswith('&mut ') and b.locals[i].get('adt') == self.adt:
                 root = ('ptr', ('arg', i))
                 out.append(('*%s' % (b.local_name(i) or 'arg%d' % i), st.read(root, ('val',)), st.read(root, ('len',))))
-        if b.ret_ty.endswith('bitseq::BitSeq') and p.ret is not None:
+        if b.ret_ty.split('<')[0].endswith(self.adt.split('::', 1)[1]) and p.ret is not None:
             r = p.ret
             if r[0] == 'adt' and r[1] == self.adt:
                 out.append(('return value', r[4][r[3].index('val')], r[4][r[3].index('len')]))
@@ -819,17 +819,18 @@ def key_of(eng, body, t):
     return (who, key)
 
 
-def run(facts, rep):
-    eng = Engine(facts, rep)
-    if not rep.floor('E4 bodies in misc::bitseq', len(eng.bodies), 50):
+def run(facts, rep, module=MODULE, adt=ADT, floor=50, order=True):
+    eng = Engine(facts, rep, module, adt)
+    if not rep.floor('E4 bodies in the bit-sequence module', len(eng.bodies), floor):
         return eng
-    adt = facts.adts.get(ADT)
+    ADT_ = adt
+    adt = facts.adts.get(ADT_)
     if adt is None:
-        rep.indet('E4: ADT %s not found' % ADT)
+        rep.indet('E4: ADT %s not found' % ADT_)
         return eng
     for f in adt['variants'][0]['fields']:
         inst = 'BitSeq.%s visibility' % f['name']
-        if f['vis'] == 'pub' or not f['vis'].endswith('misc::bitseq'):
+        if f['vis'] == 'pub' or not f['vis'].endswith(module.rstrip(':').split('::', 1)[1]):
             rep.violation('E4.O3-private-fields', inst, 'field BitSeq.%s is visible outside misc::bitseq (%s): the packed '
                           'representation can be written without re-establishing len <= 64 and width(val) <= len' % (f['name'], f['vis']),
                           where='%s:%d' % (adt['file'], adt['line']))
@@ -838,6 +839,7 @@ def run(facts, rep):
     nlit = 0
     for b in sorted(eng.bodies, key=lambda x: x.defp):
         eng.check_body(b)
-    check_order(eng, rep)
+    if order:
+        check_order(eng, rep)
     rep.inventory['E4 width summaries of in-module u64 functions'] = {k: v for k, v in eng._wsum.items() if v}
     return eng
